@@ -22,6 +22,7 @@ expr:
    ('top', why)                 not understood (obligations touching it are undecided)
 """
 from .ir import (tag, root, is_f64_method, f64_method_name, is_next_call, short, is_panic_path, show)
+from .ir import subterms as subterms_
 
 TOP_LIMIT = 64
 
@@ -952,6 +953,17 @@ class ElemEngine:
                             ct = c.args[1]
                             if tag(ct) == 'agg' and path[1] < len(ct[3]) and same_obj(ct[3][path[1]]):
                                 add(av)
+                    # the closure captures obj by `&mut` but no write through that capture was read (an inner loop over rows of the captured
+                    # buffer, say): its effect on obj is unknown, not absent
+                    ct = c.args[1]
+                    if tag(ct) == 'agg' and ct[1] == 'closure':
+                        gcl = self.prog.func(ct[2])
+                        if gcl is not None:
+                            pool_ = [st.target for st in gcl.stores()] + [st.value for st in gcl.stores()] + [a_ for cc in gcl.calls() for a_ in cc.args]
+                            mut_ups = {z[1] for t_ in pool_ for z in subterms_(t_) if tag(z) == 'upvar' and len(z) > 2 and '&mut' in str(z[2])[:8]}
+                            for k_ in mut_ups:
+                                if k_ < len(ct[3]) and same_obj(ct[3][k_]) and not any(pth and pth[0] == 'upvar' and pth[1] == k_ for pth, _ in effs):
+                                    add(top('captured &mut by a for_each closure whose writes are not read'))
                 elif p in self.pdb.bodies:
                     # in-crate callee mutating a &mut parameter that views obj
                     cargs, ctys, ups = list(c.args), list(c.argtys), {}
